@@ -19,6 +19,8 @@ type Rec struct {
 	Ret    int64
 	Thread int // -1 prefix, 0.. concurrent, -2 suffix
 	Done   bool
+	Nows   []int64 // instants read from the ticking clock during the call
+	NowRet int64   // ticking clock at return
 }
 
 func (r Rec) String() string {
@@ -31,7 +33,14 @@ func (r Rec) String() string {
 	if !r.Done {
 		return fmt.Sprintf("[%d,..] %s %s -> (unfinished)", r.Inv, who, r.Op.String())
 	}
-	return fmt.Sprintf("[%d,%d] %s %s -> %s", r.Inv, r.Ret, who, r.Op.String(), r.Res.String())
+	clk := ""
+	if len(r.Nows) > 0 {
+		clk = " clock"
+		for _, n := range r.Nows {
+			clk += fmt.Sprintf(" +%d", n-vs.Epoch)
+		}
+	}
+	return fmt.Sprintf("[%d,%d] %s %s -> %s%s", r.Inv, r.Ret, who, r.Op.String(), r.Res.String(), clk)
 }
 
 // Outcome of executing a program under one schedule.
@@ -88,9 +97,18 @@ type execOpts struct {
 // seqDo performs one call of a sequential phase as a one-thread controlled run, so that a
 // self-deadlock or endless spin there is a reported failure instead of a hung process.
 func seqDo(api adapt.API, op *model.Op) (model.Res, *vs.Failure) {
+	res, f, _ := seqDoT(api, op)
+	return res, f
+}
+
+func seqDoT(api adapt.API, op *model.Op) (model.Res, *vs.Failure, []int64) {
 	var res model.Res
-	r := vs.Run(&vs.NonPreemptive{Order: []int{0}}, 3000000, func() { res = adapt.SafeDo(api, op) })
-	return res, r.Fail
+	var nows []int64
+	r := vs.Run(&vs.NonPreemptive{Order: []int{0}}, 3000000, func() {
+		res = adapt.SafeDo(api, op)
+		nows = append(nows, vs.Cur().ClockReads...)
+	})
+	return res, r.Fail, nows
 }
 
 // execute runs p under schedule s against a fresh container and checks it.
@@ -105,6 +123,8 @@ func execute(p *Program, s *Sched, o execOpts) *Outcome {
 	}
 	vs.ClockOn = true
 	vs.NowNS = vs.Epoch
+	vs.TickOn = p.Tick
+	defer func() { vs.TickOn = false }()
 	vs.SetLayoutSeed(p.Layout)
 	var api adapt.API
 	func() {
@@ -119,6 +139,7 @@ func execute(p *Program, s *Sched, o execOpts) *Outcome {
 		return out
 	}
 	m := model.New(p.Hot, vs.Epoch, adapt.EffDefault(p.Spec), p.Spec.CB)
+	m.Tick = p.Tick
 	noexp := model.NoExpiration
 	fill, keep := p.Fill, p.keepEff()
 	if p.effFill > 0 {
@@ -149,7 +170,7 @@ func execute(p *Program, s *Sched, o execOpts) *Outcome {
 			vs.NowNS += op.D
 		} else {
 			var f *vs.Failure
-			rec.Res, f = seqDo(api, &op)
+			rec.Res, f, rec.Nows = seqDoT(api, &op)
 			if f != nil {
 				out.Recs = append(out.Recs, rec)
 				return viol("scheduler:"+f.Kind, f.Kind+":"+op.K.String(), fmt.Sprintf("sequential prefix call %s did not return: %s", op.String(), f.Detail))
@@ -160,6 +181,12 @@ func execute(p *Program, s *Sched, o execOpts) *Outcome {
 		out.Recs = append(out.Recs, rec)
 		if rec.Res.Note != "" && rec.Res.Note != "unsupported" {
 			return viol("sequential", "callback-note", rec.Res.Note)
+		}
+		if p.Tick {
+			if op.K == model.HAdvance {
+				m.Now = vs.NowNS - op.D // HAdvance adds D itself
+			}
+			m.At(opNows(op.K, rec.Nows))
 		}
 		if err := m.Step(&op, &out.Recs[len(out.Recs)-1].Res); err != nil {
 			return viol("sequential", "prefix:"+op.K.String(), fmt.Sprintf("prefix op %s: %v", op.String(), err))
@@ -181,9 +208,14 @@ func execute(p *Program, s *Sched, o execOpts) *Outcome {
 				rec.Op = ops[i]
 				rec.Thread = ti
 				th.OpIndex = i
+				th.ClockReads = th.ClockReads[:0]
 				rec.Inv = vs.Stamp()
 				rec.Res = adapt.SafeDo(api, &rec.Op)
 				rec.Ret = vs.Stamp()
+				if len(th.ClockReads) > 0 {
+					rec.Nows = append([]int64(nil), th.ClockReads...)
+				}
+				rec.NowRet = vs.NowNS
 				rec.Done = true
 			}
 			th.OpIndex = -1
@@ -231,7 +263,8 @@ func execute(p *Program, s *Sched, o execOpts) *Outcome {
 	sfx := func(op model.Op) *Rec {
 		rec := Rec{Op: op, Thread: -2, Inv: vs.Stamp()}
 		var f *vs.Failure
-		rec.Res, f = seqDo(api, &op)
+		rec.Res, f, rec.Nows = seqDoT(api, &op)
+		rec.NowRet = vs.NowNS
 		if f != nil && sfxFail == nil {
 			sfxFail, sfxOp = f, op
 		}
@@ -443,7 +476,7 @@ func buildHistory(p *Program, recs []Rec) ([]lin.Ev, string) {
 				if !ok && stopped {
 					continue
 				}
-				evs = append(evs, lin.Ev{Op: model.Op{K: model.PVisitKey, Key: k}, Res: &model.Res{V: v, OK: ok}, Inv: r.Inv, Ret: r.Ret, Thread: r.Thread, Parent: parent})
+				evs = append(evs, lin.Ev{Op: model.Op{K: model.PVisitKey, Key: k}, Res: &model.Res{V: v, OK: ok}, Inv: r.Inv, Ret: r.Ret, Thread: r.Thread, Parent: parent, Nows: spanNow(r)})
 			}
 			if p.keepEff() > 0 && !stopped {
 				switch {
@@ -471,7 +504,7 @@ func buildHistory(p *Program, recs []Rec) ([]lin.Ev, string) {
 			}
 			for k := 0; k < p.Hot; k++ {
 				v, ok := fired[k]
-				evs = append(evs, lin.Ev{Op: model.Op{K: model.PSweepKey, Key: k}, Res: &model.Res{V: v, OK: ok}, Inv: r.Inv, Ret: r.Ret, Thread: r.Thread, Parent: parent})
+				evs = append(evs, lin.Ev{Op: model.Op{K: model.PSweepKey, Key: k}, Res: &model.Res{V: v, OK: ok}, Inv: r.Inv, Ret: r.Ret, Thread: r.Thread, Parent: parent, Nows: spanNow(r)})
 			}
 		case model.MSize, model.CCount:
 			// C08: Size/Count is exact only while no modifying call is in flight. A concurrent
@@ -510,7 +543,7 @@ func buildHistory(p *Program, recs []Rec) ([]lin.Ev, string) {
 			} else {
 				ret = lin.Pending
 			}
-			evs = append(evs, lin.Ev{Op: r.Op, Res: rp, Inv: r.Inv, Ret: ret, Thread: r.Thread})
+			evs = append(evs, lin.Ev{Op: r.Op, Res: rp, Inv: r.Inv, Ret: ret, Thread: r.Thread, Nows: opNows(r.Op.K, r.Nows)})
 		}
 	}
 	// each stored value reported to the evicted callback at most once over the whole history
@@ -527,6 +560,34 @@ func buildHistory(p *Program, recs []Rec) ([]lin.Ev, string) {
 		}
 	}
 	return evs, ""
+}
+
+// opNows maps the clock reads of a call to (instant that decides visibility, instant new
+// expirations are stamped with). Read-only getters re-check the CURRENT value under the lock
+// with a second read when the snapshot they loaded was expired, so their last read decides;
+// read-modify-write calls decide visibility first and stamp afterwards.
+func opNows(k model.Kind, reads []int64) []int64 {
+	if len(reads) == 0 {
+		return nil
+	}
+	last := reads[len(reads)-1]
+	switch k {
+	case model.CGet, model.CGetExp, model.CGetTTL:
+		return []int64{last, last}
+	}
+	return []int64{reads[0], last}
+}
+
+// spanNow: traversals and sweeps may decide by any instant between their first clock read and their return.
+func spanNow(r *Rec) []int64 {
+	if len(r.Nows) == 0 {
+		return nil
+	}
+	end := r.NowRet
+	if end < r.Nows[0] {
+		end = r.Nows[0]
+	}
+	return []int64{r.Nows[0], end}
 }
 
 // historySig is a canonical signature of a history (results + precedence
@@ -554,7 +615,7 @@ func historySig(recs []Rec) string {
 			fmt.Fprintf(&sb, "r%d;", a.idx)
 		} else {
 			r := &recs[a.idx]
-			fmt.Fprintf(&sb, "i%d:%d:%s=%+v;", a.idx, r.Thread, r.Op.String(), r.Res)
+			fmt.Fprintf(&sb, "i%d:%d:%s=%+v@%v;", a.idx, r.Thread, r.Op.String(), r.Res, r.Nows)
 		}
 	}
 	return sb.String()
